@@ -20,6 +20,7 @@ RULE = ("cases = pairs and triples of Durations (week form and unit form, "
         "calendar mode for the ordering rule; non-trivial = the operands' "
         "component tuples differ and at least one is non-empty; distinct by "
         "(mode, a-components, b-components)")
+RUN_REPO_SUITE = True   # thorough tier: repo tests under these monitors
 DECIDING = ["op.post", "cmp.post", "hash.post", "law"]
 MIN_EVALS = {"op.post": 20000, "cmp.post": 20000, "hash.post": 3000,
              "law": 10000}
